@@ -31,7 +31,7 @@ PLAN = {
     "thorough": {"shards": 16, "shard_timeout": 3600, "case_timeout": 60, "cases": 1000000, "max_case_timeouts": 10},
 }
 THRESHOLDS = {
-    "quick": {"contract_evaluations": 100000, "impl:native": 5000, "impl:ge": 5000, "impl:stack": 5000, "impl:sge": 5000, "impl:dsge": 1000, "exhaustive_spaces": 100, "decider_random_int": 20000, "wide_ranges": 3000, "zero_weight_offers": 2000, "same_seed_streams": 20, "decider_widths_enumerated": 3000, "weighted_enumerations_with_reused_list": 10, "pops_from_lists_with_equal_but_distinct_elements": 500, "gene_domain_weighted_draws": 20000, "gene_domain:dsge:fresh": 2, "gene_domain:stack:mutated": 2},
+    "quick": {"decider_random_str": 100, "contract_evaluations": 100000, "impl:native": 5000, "impl:ge": 5000, "impl:stack": 5000, "impl:sge": 5000, "impl:dsge": 1000, "exhaustive_spaces": 100, "decider_random_int": 20000, "wide_ranges": 3000, "zero_weight_offers": 2000, "same_seed_streams": 20, "decider_widths_enumerated": 3000, "weighted_enumerations_with_reused_list": 10, "pops_from_lists_with_equal_but_distinct_elements": 500, "gene_domain_weighted_draws": 20000, "gene_domain:dsge:fresh": 2, "gene_domain:stack:mutated": 2},
     "thorough": {"contract_evaluations": 2000000, "exhaustive_spaces": 2000, "decider_random_int": 400000},
 }
 
